@@ -269,7 +269,9 @@ func (bc *boundsChecker) killed(fd *ast.FuncDecl, s *boundSite, from, to token.P
 		}
 		switch y := n.(type) {
 		case *ast.AssignStmt:
-			if y.Pos() > from && y.Pos() < to {
+			// an assignment whose right-hand side contains the site stores after
+			// the site was evaluated
+			if y.Pos() > from && y.Pos() < to && !(y.Pos() <= to && to <= y.End()) {
 				for _, l := range y.Lhs {
 					if hit(l) {
 						k = true
@@ -449,8 +451,14 @@ func (bc *boundsChecker) prove(s *boundSite) (proof string, why string) {
 	if s.depth < 2 {
 		if id, ok := ast.Unparen(s.x).(*ast.Ident); ok {
 			if pi, isParam := bc.paramIndex(fd, id); isParam && !bc.killed(fd, s, fd.Body.Pos(), sitePos) {
+				idxParam := -1
 				if s.idx != nil {
-					return "", "index variable over a parameter: no guard relates " + s.idx.Name + " to len(" + xs + ")"
+					// the index is a parameter too: the relation is the callers' to establish
+					ii, isP := bc.paramIndex(fd, s.idx)
+					if !isP {
+						return "", "index variable over a parameter: no guard relates " + s.idx.Name + " to len(" + xs + ")"
+					}
+					idxParam = ii
 				}
 				calls := bc.callsOf(fd)
 				if len(calls) == 0 {
@@ -463,6 +471,21 @@ func (bc *boundsChecker) prove(s *boundSite) (proof string, why string) {
 					}
 					arg := ast.Unparen(call.Args[pi])
 					cs := &boundSite{fd: bc.funcOf(call), node: call, x: arg, k: s.k, depth: s.depth + 1}
+					if idxParam >= 0 {
+						if idxParam >= len(call.Args) {
+							return "", "call at " + bc.p.Pos(call.Pos()) + " passes the index in a form that is not analysed"
+						}
+						ia := ast.Unparen(call.Args[idxParam])
+						if tv := bc.info.Types[ia]; tv.Value != nil {
+							if v, ok := constant.Int64Val(constant.ToInt(tv.Value)); ok {
+								cs.k = int(v)
+							}
+						} else if iid, ok := ia.(*ast.Ident); ok {
+							cs.idx = iid
+						} else {
+							return "", fmt.Sprintf("the call %s at %s passes the index %s, which no length test can be matched to", wire.Canon(call.Fun), bc.p.Pos(call.Pos()), wire.Canon(ia))
+						}
+					}
 					if cs.fd == nil {
 						return "", "call at " + bc.p.Pos(call.Pos()) + " is outside the analysed functions"
 					}
